@@ -17,13 +17,15 @@ SHARD = 120
 AUTHORITY = ("C17_load_render (coq/props/C17.v): load (render ly M) is meaning M by names for every well-formed M and layout; C17_row / C17_ranges / C17_bounds / C17_objective (coq/props/C17.v): the reader model gives, for all "
              "numeric values, the constraints, bounds, kinds and objective the MPS conventions prescribe; the "
              "comparator match_spec checks the SDK's instance against MpsSpec.meaning of the abstract model whose "
-             "rendering (MpsSpec.render, evaluated in Coq) the SDK loaded")
+             "rendering (MpsSpec.render, evaluated in Coq) the SDK loaded; C17_loaded_instance_valid: every loaded instance has "
+             "distinct variable ids, distinct constraint ids and only defined ids in use")
 RULE = ("abstract models: 1-6 columns, 0-5 rows of types E/L/G/N (free rows with and without entries), RHS present or "
         "absent, positive and negative RANGES on E/L/G, 0-3 BOUNDS statements per column over UP LO FX MI PL FR BV LI UI "
         "(finite, infinite, negative values), integer marker groups, objective constant via the RHS of the objective "
         "row, OBJSENSE absent / MIN / MAX; names foreign, OMMX-tagged (ID recovery), mixed and malformed tags; layouts: "
         "3/5-field lines x comments x blank lines x OBJSENSE inline/own line x tab/space separators; transport plain / "
-        "gzip / CRLF / gz file. fault stream: one injected fault per error class on a rendered text. non-trivial = "
+        "gzip / CRLF / gz file; naming streams: foreign names, SDK names (ids recovered), SDK names with one non-numeric tail, "
+        "SDK names with one NON-CANONICAL number (leading zero, plus sign, possibly the number of another column: ordinary names).  fault stream: one injected fault per error class on a rendered text. non-trivial = "
         "model has a constraint row or a bound statement; distinct by (op,input)")
 TRUSTED = ["hand-written reader model coq/theories/Mps.v of parser.rs / convert.rs (tied to the code by this correspondence only)",
            "MpsSpec.render / MpsSpec.meaning are the specification (hand-written from the MPS conventions)",
